@@ -156,6 +156,16 @@ func genC15(t *rapid.T) *Case {
 	// in a heading (rendered text) the library's line-break marker cannot be told from page text
 	h1 = strings.ReplaceAll(h1, `|\/|`, "|")
 	g.pop()
+	shortBody := mode == "repeat" && h1 == "" && g.chance(25, "shortbody")
+	if shortBody {
+		// a page whose headline is its largest block: the repeated title, then one short paragraph
+		ex := c15Extra{Mode: mode, RepeatTag: g.pick("rtag", "h1", "h2", "div")}
+		body.WriteString(c15Marker)
+		body.WriteString("<p>" + g.words(g.intn(8, 18, "shortw")) + ".</p>\n")
+		c := &Case{Property: "C15", HTML: "<!DOCTYPE html><html><head>" + head.String() + "</head><body>\n" + body.String() + "</body></html>", Opts: genOpts(t, 30)}
+		c.SetExtra(ex)
+		return c
+	}
 	body.WriteString(g.longPara(40, 90))
 	if h1 != "" {
 		tag := g.pick("htag", "h1", "h1", "h2")
